@@ -43,7 +43,7 @@ impl<D: Data> GLWEInfos for GLWETensorKeyCompressed<D> {
 
 impl<D: Data> GGLWEInfos for GLWETensorKeyCompressed<D> {
     fn rank_in(&self) -> Rank {
-        self.rank_out()
+        self.0.rank_in()
     }
 
     fn rank_out(&self) -> Rank {
